@@ -200,7 +200,7 @@ def run(ctx):
         ops = json.load(open(ctx.replay)).get("ops", [])
     else:
         ops = [l.rstrip("\n") for l in open("props/C26/corpus.ops") if l.strip() and not l.startswith("#")]
-        for _ in range(ctx.scale(500, 12000)):
+        for _ in range(ctx.scale(500, 8000)):
             ops += gen_scenario(ctx.rng)
     total = len(split_scenarios(ops))
     ops, ncut = prefilter(ctx, ops)
